@@ -14,7 +14,7 @@ TARGET = {
  'C09-m1': [('C09', 'OVERLAP_w8'), ('C09', 'OVERLAP_w32')], 'C09-m2': [('C09', 'GAP_w32')],
  'C10-m1': [('C01', 'O2_reader_w32'), ('C10', 'O5')], 'C10-m2': [('C12', None)],
  'C12-m1': [('C12', 'utc_seek')], 'C12-m2': [('C12', None)],
- 'C13-m1': [('C13', 'O2_user_data')], 'C13b-m1': [('C13', 'O1_strings')], 'C13b-m2': [('C10', 'O1'), ('C13', 'O3_identity')], 'C13-m2': [('C13', 'O2_signal_def')],
+ 'C13-m1': [('C13', 'O2_user_data')], 'C13b-m1': [('C13', 'O1_strings')], 'C19b-m1': [('C19', 'O3_repair')], 'C19b-m2': [('C19', 'O2_rd_open')], 'C03b-m1': [('C03', None)], 'C03b-m2': [('C03', 'core_wr_data')], 'C13b-m2': [('C10', 'O1'), ('C13', 'O3_identity')], 'C13-m2': [('C13', 'O2_signal_def')],
  'C14-m1': [('C14', None)], 'C14-m2': [('C14', None)],
  'C15-m1': [('C15', 'w4'), ('C15', 'w1')], 'C15-m2': [('C15', 'O2_block')],
  'C16-m1': [('C16', 'w32'), ('C16', 'w64')], 'C16-m2': [('C16', 'REL_SUMMARY')],
